@@ -19,9 +19,9 @@ META = dict(
              'final scaling in 80-bit interval arithmetic',
              'direct imaging: the code scales by Rp^2 * 2pi / (4pi d^2); the wavelength-independent constant 1/2 '
              'is carried as coded (DESIGN note N1)'],
-    modelled=['EmissionModel.evaluate_emission, path_integral, compute_final_flux, '
-              'DirectImageModel.compute_final_flux, taurex.util.emission.black_body (wavenumber form); '
-              'the correlated-k emission path is covered by C20'],
+    modelled=['EmissionModel.evaluate_emission, evaluate_emission_ktables (correlated-k mode, non-degenerate '
+              'k-distributions), path_integral, compute_final_flux, DirectImageModel.compute_final_flux, '
+              'taurex.util.emission.black_body (wavenumber form)'],
     assumptions=['optical depths >= 0; SimpleClouds is excluded from emission models (its contribute ignores the '
                  'layer range: DESIGN note N5)',
                  'tolerance 1e-8 relative to the largest layer black body for intensities, 1e-8 relative for spectra'],
@@ -37,10 +37,14 @@ def observe(model, direct):
         wn, spec, tau, _ = model.model()
         I, _mu, _w, tau2 = model.partial_model()
     cs = []
+    ksig = kw = None
     for c in model.contribution_list:
         s = np.array(c.sigma_xsec, float)
+        if s.ndim == 3:          # correlated-k mode: [layer, wn, g] and the quadrature weights of the k-distribution
+            ksig, kw = s, np.array(c.weights, float)
+            continue
         cs.append(('sig2' if isinstance(c, CIAContribution) else 'sig', s, type(c).__name__))
-    return dict(wn=np.array(wn), spec=np.array(spec), I=np.array(I), mus=np.array(model._mu_quads, float),
+    return dict(ksig=ksig, kw=kw, wn=np.array(wn), spec=np.array(spec), I=np.array(I), mus=np.array(model._mu_quads, float),
                 wts=np.array(model._wi_quads, float), T=np.array(model.temperatureProfile, float),
                 rho=np.array(model.densityProfile, float), dz=np.array(model.deltaz, float), cs=cs,
                 Rp=float(model.planet.fullRadius), Rs=float(model.star.radius),
@@ -113,6 +117,129 @@ def compare(o, res):
         if not C.in_enclosure(x, v, rel=1e-8):
             return 'spectrum wn %d: impl %r model %r' % (w, x, C.iv_mid(v))
     return None
+
+
+def kmodel_expr(o):
+    sig = o['ksig']
+    sl = C.clist([C.clist([C.ivlist(sig[l, w]) for w in range(sig.shape[1])]) for l in range(sig.shape[0])])
+    return 'run_kemission %s %s %s %s %s %s %s %s %s %s %s %s %s %s %s %s %s' % (
+        C.boollit(o['direct']), C.iv(o['h']), C.iv(o['c']), C.iv(o['k']), C.ivlist(o['wn']), C.ivlist(o['T']),
+        C.clist([c01.contrib_lit(c) for c in o['cs']]), sl, C.ivlist(o['kw']), C.ivlist(o['rho']), C.ivlist(o['dz']),
+        C.ivlist(o['mus']), C.ivlist(o['wts']), C.iv(o['Tstar']), C.iv(o['Rp']), C.iv(o['Rs']), C.iv(o['dist']))
+
+
+def koracle(ctx, o, rp):
+    """correlated-k mode: the statement of the property evaluated directly on the implementation's output.
+    No saturation cut-off exists on this path, so the isothermal identity and the bounds hold without the exp(-10) slack"""
+    wn = o['wn']
+    Bl = np.array([planck_py(o, wn, t) for t in o['T']])
+    scale = (o['Rp'] / o['Rs']) ** 2 / planck_py(o, wn, o['Tstar']) if not o['direct'] else \
+        o['Rp'] ** 2 / (2 * o['dist'] ** 2)
+    lo, hi = Bl.min(axis=0) * scale, Bl.max(axis=0) * scale
+    s = o['spec']
+    if np.any(~np.isfinite(s)):
+        ctx.violation('k:nonfinite', 'correlated-k spectrum not finite: %r' % s, replay=rp)
+        return
+    if abs(o['kw'].sum() - 1) > 1e-9 or np.any(o['kw'] < 0):
+        ctx.violation('k:weights', 'k-distribution weights %r are not a partition of unity' % o['kw'], replay=rp)
+    if np.any(s < lo * (1 - 1e-8)) or np.any(s > hi * (1 + 1e-8)):
+        ctx.violation('k:hot-cold-bounds', 'correlated-k spectrum %r outside the black-body ratios of the coldest %r '
+                      'and hottest %r layers' % (s, lo, hi), replay=rp)
+    if len(set(o['T'].tolist())) == 1 and not np.allclose(s, hi, rtol=1e-8):
+        ctx.violation('k:isothermal', 'isothermal atmosphere (correlated-k) gives %r instead of the black-body ratio %r'
+                      % (s, hi), replay=rp)
+    # the documented layered integral with the weight-averaged exponential as transmittance
+    d = np.zeros((len(o['T']), len(wn)))
+    for kind, data, _ in o['cs']:
+        d += np.asarray(data) * (o['dz'] * o['rho'] ** (2 if kind == 'sig2' else 1))[:, None]
+    kd = o['ksig'] * (o['dz'] * o['rho'])[:, None, None]                      # [layer, wn, g]
+    tail = lambda a: np.concatenate([np.cumsum(a[::-1], axis=0)[::-1], np.zeros((1,) + a.shape[1:])])
+    td, tk = tail(d), tail(kd)                                              # depth from level j to the top
+    Idoc = []
+    for mu in o['mus']:
+        with np.errstate(all='ignore'):
+            G = np.exp(-td / mu) * np.sum(np.exp(-tk / mu) * o['kw'], axis=-1)   # [level, wn]
+            Idoc.append(Bl[0] / math.pi * G[0] + np.sum(Bl / math.pi * (G[1:] - G[:-1]), axis=0))
+    Idoc = np.array(Idoc)
+    tol = Bl.max(axis=0) / math.pi * 1e-8
+    if np.any(np.abs(Idoc - o['I']) > tol):
+        i, w = np.unravel_index(np.argmax(np.abs(Idoc - o['I']) / tol), Idoc.shape)
+        ctx.violation('k:integral', 'correlated-k intensity %r at angle %d differs from the documented layered '
+                      'integral %r' % (o['I'][i, w], i, Idoc[i, w]), replay=rp)
+
+
+def kcases(ctx, rng, n=(24, 200), tag='C02_k'):
+    """correlated-k opacity mode (evaluate_emission_ktables): non-degenerate k-distributions"""
+    import os
+    import shutil
+    kdir = os.path.join(C.CACHE, 'ktables_c02_%d' % os.getpid())
+    obs, exprs, rps = [], [], []
+    try:
+        for i in range(ctx.n(*n)):
+            contribs = ['Absorption'] + [c for c in ['CIA', 'Rayleigh', 'FlatMie'] if rng.random() < 0.3]
+            spec = tmodel.gen_spec(rng, contribs=contribs, nlayers=rng.choice([1, 2, 3, 4, 5, 7]),
+                                   nwn=rng.choice([1, 2, 3, 4]), ngas=rng.choice([1, 2]))
+            n = spec['nlayers']
+            kind = rng.choice(['iso', 'mono', 'random', 'random'])
+            spec['T'] = [rng.uniform(300, 2500)] if kind == 'iso' else \
+                sorted([rng.uniform(300, 2500) for _ in range(n)], reverse=True) if kind == 'mono' else \
+                [rng.uniform(300, 2500) for _ in range(n)]
+            ng = rng.choice([1, 2, 3, 5])
+            w = np.array([rng.uniform(0.05, 1) for _ in range(ng)])
+            w = w / w.sum()
+            w[-1] = 1.0 - w[:-1].sum()
+            kc = {}
+            for g in spec['gases']:
+                tab = np.array(spec['opac'][g]['tab'])
+                kc[g] = tab[..., None] * 10 ** np.array(
+                    [rng.uniform(-1.5, 1.5) for _ in range(tab.size * ng)]).reshape(tab.shape + (ng,))
+            direct = rng.random() < 0.3
+            rp = dict(kind='ktable', spec=spec, weights=w, kcoeff={g: kc[g] for g in kc}, direct=direct)
+            tmodel.write_ktables(spec, kdir, w, kc)
+            try:
+                model = tmodel.build(spec, emission=not direct, direct=direct, kdir=kdir)
+                o = observe(model, direct)
+            except Exception as e:
+                import traceback
+                ctx.violation('impl-raises:ktable:' + C.err_kind(e), 'correlated-k emission model raised %r %s'
+                              % (e, traceback.format_exc()[-600:]), replay=rp)
+                continue
+            if o['ksig'] is None:
+                ctx.violation('k:mode', 'opacity_method=ktables did not select the correlated-k path', replay=rp)
+                continue
+            koracle(ctx, o, rp)
+            obs.append(o); rps.append((rp, kind)); exprs.append(kmodel_expr(o))
+            if rng.random() < 0.4:
+                # the same object after a retrieval-style update
+                upd = {}
+                with np.errstate(all='ignore'):
+                    g = rng.choice(spec['gases'])
+                    upd[g] = float(model[g]) * 10 ** rng.uniform(-1, 1)
+                    model[g] = upd[g]
+                    if 'T' in model.fittingParameters:
+                        upd['T'] = rng.uniform(300, 2500)
+                        model['T'] = upd['T']
+                    o2 = observe(model, direct)
+                rp2 = dict(rp, updated=upd)
+                koracle(ctx, o2, rp2)
+                obs.append(o2); rps.append((rp2, kind)); exprs.append(kmodel_expr(o2))
+            ctx.count('ktable:ng=%d' % ng)
+            ctx.count('ktable:T:' + kind)
+    finally:
+        shutil.rmtree(kdir, ignore_errors=True)
+        tmodel.reset_caches()
+    for o, (rp, kind), res in zip(obs, rps, C.run_cases(tag, HEADER, exprs, shard=4)):
+        bad = compare(o, res)
+        spec = rp['spec']
+        ctx.case(repr(('ktable', spec['nlayers'], spec['contribs'], spec['level'], kind, len(o['kw']), float(o['spec'][0]))),
+                 nontrivial=(kind != 'iso' and len(o['kw']) > 1),
+                 sample=dict(mode='ktable', nlayers=spec['nlayers'], ng=len(o['kw']), contribs=spec['contribs'],
+                             direct=o['direct'], spectrum=o['spec'][:2]))
+        if bad is None:
+            ctx.validated()
+        else:
+            ctx.violation('correspondence:kemission', 'correlated-k model/implementation disagree: ' + bad, replay=rp,
+                          no_input=not any(v['signature'].startswith('k:') for v in ctx.violations))
 
 
 def gen(rng):
@@ -196,10 +323,13 @@ def run(ctx):
                           replay=dict(spec=spec, direct=o['direct']),
                           no_input=not any(v['signature'] in ('integral', 'hot-cold-bounds', 'isothermal')
                                            for v in ctx.violations))
+    kcases(ctx, rng)
 
 
 def replay(ctx, obj):
     r = obj['replay']
+    if r.get('kind') == 'ktable':
+        return kreplay(ctx, r)
     spec = r['spec']
     spec['wn'] = np.array(spec['wn'])
     for g in spec['opac']:
@@ -214,5 +344,35 @@ def replay(ctx, obj):
     ctx.case('replay')
     if bad:
         ctx.violation('correspondence:emission', bad, replay=r, no_input=True)
+    else:
+        ctx.validated()
+
+
+def kreplay(ctx, r):
+    import os
+    import shutil
+    spec = r['spec']
+    spec['wn'] = np.array(spec['wn'])
+    for g in spec['opac']:
+        for k in ('Tg', 'Pg', 'tab', 'wn'):
+            spec['opac'][g][k] = np.array(spec['opac'][g][k])
+    spec['cia']['xsec'] = np.array(spec['cia']['xsec'])
+    kdir = os.path.join(C.CACHE, 'ktables_c02_%d' % os.getpid())
+    direct = bool(r.get('direct'))
+    try:
+        tmodel.write_ktables(spec, kdir, np.array(r['weights']), {g: np.array(v) for g, v in r['kcoeff'].items()})
+        model = tmodel.build(spec, emission=not direct, direct=direct, kdir=kdir)
+        for name, v in (r.get('updated') or {}).items():
+            model[name] = v
+        o = observe(model, direct)
+    finally:
+        shutil.rmtree(kdir, ignore_errors=True)
+        tmodel.reset_caches()
+    koracle(ctx, o, r)
+    res = C.run_cases('C02_kreplay', HEADER, [kmodel_expr(o)])
+    bad = compare(o, res[0])
+    ctx.case('replay-ktable')
+    if bad:
+        ctx.violation('correspondence:kemission', bad, replay=r, no_input=True)
     else:
         ctx.validated()
